@@ -14,6 +14,7 @@
    and (b) the audit of every non-local write site extracted from the source
    (Gen/Effects.v, obligation C04_writes_audited below; the lock-related tables are C16's). *)
 From Errdef Require Import Base.Str Model.Core Model.GoErrors Model.Prog Check.C04 Gen.Effects Spec.EffectsAudit Proofs.C01Proofs Proofs.C04Proofs.
+From Errdef Require Model.SliceFlow Proofs.SliceFlowProofs Proofs.C04Slices Gen.SliceOps.
 
 (* no statement changes anything that existed before it *)
 Theorem C04_step_extends : forall s x, extends s (step s x).
@@ -51,6 +52,78 @@ Theorem C04_writes_audited :
   mutator_calls = audited_mutator_calls /\ fresh_sources = audited_fresh_sources.
 Proof. exact writes_audited. Qed.
 Print Assumptions C04_writes_audited.
+
+(* ---- caller-owned slices: a memory model with aliasing, and an analysis of the SOURCE --------
+
+   Model/SliceFlow.v is a memory model for Go slices: backing arrays with identity, views with
+   offset / length / capacity, append that writes IN PLACE whenever the capacity suffices and
+   allocates otherwise, copy / element assignment / slices.CompactFunc & co. as writes within the
+   capacity window, reslicing.  A function is described by the set of its SliceFlow.slice operations
+   (SliceFlow.PAssign, SliceFlow.PAppend, SliceFlow.PWrite, SliceFlow.PStore over parameters, retained slices, local variables, nil and
+   fresh allocations).  The ownership analysis [SliceFlow.accepts] is flow-insensitive; it is PROVED SOUND:
+   whatever SliceFlow.heap the call starts from, whatever slices are handed in (any spare capacity, any
+   aliasing among themselves or with the library's retained slices), in whatever order and however
+   often the operations SliceFlow.run (branches, loops), an accepted function writes to no array that existed
+   before the call and stores only slices of arrays the call itself allocated (or empty ones). *)
+Theorem C04_slice_analysis_sound : forall ops, SliceFlow.accepts ops = true ->
+  forall (h0 : SliceFlow.heap) (params retained : string -> SliceFlow.slice) (sched : list SliceFlow.choice),
+  let st := SliceFlow.run params retained ops sched (SliceFlow.init_state h0) in
+  firstn (List.length h0) (SliceFlow.st_h st) = h0 /\
+  forall s, In s (SliceFlow.st_stored st) -> SliceFlowProofs.fresh_or_empty (List.length h0) s.
+Proof. exact C04Slices.slice_analysis_sound. Qed.
+Print Assumptions C04_slice_analysis_sound.
+
+(* Gen/SliceOps.v holds the SliceFlow.slice operations of EVERY exported function and method of the three
+   packages (callees of the same package inlined), translated from /repo by srcgen on every SliceFlow.run.
+   All of them are accepted - hence, by the theorem above: no API call writes into an option SliceFlow.slice,
+   a format-argument SliceFlow.slice, a cause SliceFlow.slice, a definition list or a key list handed in by the caller,
+   nor into a SliceFlow.slice another object retains (a parent context's options, a resolver's definitions,
+   an unmarshaler's keys), and nothing it keeps aliases them, so later mutation by the caller cannot
+   reach it.  An `append(parentOpts, opts...)`, a `slices.DeleteFunc(causes, ..)`, a dropped
+   `slices.Clone`, a `u.keys = keys` makes this theorem fail and names the function. *)
+Theorem C04_caller_slices_never_written :
+  Gen.SliceOps.sliceflow_matched = true /\ C04Slices.rejected_functions = [] /\
+  forall name ops, In (name, ops) Gen.SliceOps.functions ->
+  forall (h0 : SliceFlow.heap) (params retained : string -> SliceFlow.slice) (sched : list SliceFlow.choice),
+  let st := SliceFlow.run params retained ops sched (SliceFlow.init_state h0) in
+  firstn (List.length h0) (SliceFlow.st_h st) = h0 /\
+  forall s, In s (SliceFlow.st_stored st) -> SliceFlowProofs.fresh_or_empty (List.length h0) s.
+Proof. exact C04Slices.caller_slices_never_written. Qed.
+Print Assumptions C04_caller_slices_never_written.
+
+(* the three assumptions the translation makes, as read from the source on this SliceFlow.run:
+   - the stdlib callees that received a SliceFlow.slice are callees that only read it;
+   - the object an unmarshaler Option closure receives is the unmarshaler New is constructing
+     (tied to the source: New hands a freshly allocated unmarshaler to the dynamic Option calls -
+     the row of Gen/Effects.mutator_calls);
+   - what a Decoder returns (DecodedData) belongs to the library: the restored error keeps
+     decoded.Stack (observation, outside the statement's list of caller slices: a custom decoder
+     that later mutates the DecodedData it returned changes the restored error's frames). *)
+Theorem C04_slice_assumptions_audited :
+  forallb (fun c => existsb (String.eqb c)
+       ["bytes.Equal"; "errors.Join"; "fmt.Sprintf"; "fmt.Fprintf"; "fmt.Errorf"; "json.Marshal"; "json.Unmarshal"; "len"; "cap";
+        "runtime.Callers"; "runtime.CallersFrames"; "slog.Any"; "slog.AnyValue"; "slog.GroupValue"; "strings.Join"; "slices.Contains"]) Gen.SliceOps.readonly_callees = true /\
+  Gen.SliceOps.assumed_fresh_objects =
+    ["unmarshaler.WithCustomFields: u"; "unmarshaler.WithSentinelErrors: u"; "unmarshaler.WithStrictMode: u"] /\
+  In ("unmarshaler", "New", "dynamic Option", "fresh u.unmarshaler") mutator_calls /\
+  Gen.SliceOps.transferred_slices =
+    ["unmarshaler.(*Unmarshaler).Unmarshal: decoded.Stack (stored in unmarshaledError.stack)"].
+Proof. exact C04Slices.slice_assumptions_audited. Qed.
+Print Assumptions C04_slice_assumptions_audited.
+
+(* non-vacuity: the analysis rejects the two historical defects (F1: Wrapf appended to the caller's
+   argument SliceFlow.slice; F2: resolver.New compacted the caller's SliceFlow.slice in place and kept it), and in the
+   memory model the rejected operation really does write into the caller's array *)
+Example C04_slice_example :
+  SliceFlow.accepts [SliceFlow.PAppend "args2" (SliceFlow.XParam "args")] = false /\
+  SliceFlow.accepts [SliceFlow.PWrite (SliceFlow.XParam "defs"); SliceFlow.PStore "StrictResolver.defs" (SliceFlow.XParam "defs")] = false /\
+  SliceFlow.accepts [SliceFlow.PAssign "d#1" SliceFlow.XFresh; SliceFlow.PWrite (SliceFlow.XVar "d#1"); SliceFlow.PStore "StrictResolver.defs" (SliceFlow.XVar "d#1")] = true /\
+  (let h0 := [[1; 2; 0; 0]] in
+   let caller := {| SliceFlow.sl_arr := 0; SliceFlow.sl_off := 0; SliceFlow.sl_len := 2; SliceFlow.sl_cap := 4 |} in
+   let st := SliceFlow.run (fun _ => caller) (fun _ => SliceFlow.nil_slice) [SliceFlow.PAppend "args2" (SliceFlow.XParam "args")]
+                 [{| SliceFlow.c_op := 0; SliceFlow.c_xs := [9]; SliceFlow.c_extra := 0; SliceFlow.c_a := 0; SliceFlow.c_b := 0; SliceFlow.c_c := 0; SliceFlow.c_rel := 0 |}] (SliceFlow.init_state h0) in
+   SliceFlow.st_h st = [[1; 2; 9; 0]]).
+Proof. exact C04Slices.slice_example. Qed.
 
 Example C04_example :
   let k := {| k_id := 1; k_name := "a"; k_ty := 1 |} in
